@@ -21,6 +21,7 @@ import PygProofs.Lemmas.NpDateLemmas
 import PygProofs.Lemmas.MonthNameLemmas
 import PygProofs.Lemmas.MonthNameStrLemmas
 import PygProofs.Lemmas.SlashesLemmas
+import PygProofs.Lemmas.DialectLemmas
 
 namespace Pyg.Props.C04
 open Pyg Pyg.Bump Pyg.DateParse Pyg.Gen Pyg.Greg Pyg.NpDate
@@ -675,6 +676,71 @@ theorem str_rejects_any_seps (y m d : Nat) (hm : 1 ≤ m ∧ m ≤ 12) (hd : 12 
   · intro va vb
     rw [dtStr_triple false ws1 ws2 a z1 b z2 yy tm hms us ha hb hyy hy4 h1 h2 ht w1 w2]
     exact us_rejects_uk_text_gen y m d hm hd a b yy tm '/' '/' hms us ha hb hyy hy4 va vb vy (by decide) (by decide) ht
+
+/-! ### the dialect as the string the caller writes (defect C04-D6: `dt` tested `dialect == 'uk'`, so `'UK'` was the US dialect) -/
+
+/-- which strings are the UK dialect, which the US one — against the ENUMERATION of the spellings, both directions: the dialect read
+from the string is UK exactly for `uk UK Uk uK` and US exactly for `us US Us uS` (so `'UK'` is never read as US, and no third string
+is silently one of the two: for any other string the model has no answer, `dialectOf_other`) -/
+theorem dialect_spellings (d : String) :
+    (dialectOf d = some true ↔ d ∈ ["uk", "UK", "Uk", "uK"]) ∧ (dialectOf d = some false ↔ d ∈ ["us", "US", "Us", "uS"]) :=
+  ⟨dialectOf_uk_iff d, dialectOf_us_iff d⟩
+
+theorem dialectOf_other (d : String) (h : d ∉ ["uk", "UK", "Uk", "uK", "us", "US", "Us", "uS"]) : dialectOf d = none ∧ ∀ s, dtStrD d s = none := by
+  have h1 : dialectOf d = none := by
+    cases e : dialectOf d with
+    | none => rfl
+    | some b =>
+      cases b
+      · exact absurd (List.mem_append_right ["uk", "UK", "Uk", "uK"] ((dialectOf_us_iff d).mp e)) h
+      · exact absurd (List.mem_append_left ["us", "US", "Us", "uS"] ((dialectOf_uk_iff d).mp e)) h
+  exact ⟨h1, fun s => by simp [dtStrD, h1]⟩
+
+/-- UK, the dialect in any letter case: `dt('<d><sep><m><sep><yyyy>[ time]', dialect = 'UK')` is the instant to the microsecond -/
+theorem uk_str_any_dialect_case (dia : String) (hdia : dia ∈ ["uk", "UK", "Uk", "uK"])
+    (y m d : Nat) (v : Valid y m d) (hy : 32 ≤ y ∧ y < 9999) (ws1 ws2 a z1 b z2 yy tm : List Char) (hms us : Int)
+    (ha : IsNumeral 2 a) (hb : IsNumeral 2 b) (hyy : IsNumeral 4 yy) (hy4 : yy.length = 4)
+    (va : digitsVal a = d) (vb : digitsVal b = m) (vy : digitsVal yy = y)
+    (h1 : IsSepZone z1) (h2 : IsSepZone z2) (ht : TimeText tm hms us) (w1 : AllWs ws1) (w2 : AllWs ws2) :
+    dtStrD dia (String.ofList (ws1 ++ (a ++ (z1 ++ (b ++ (z2 ++ (yy ++ tm))))) ++ ws2)) = some (checkRange (mkDate y m d + hms + us)) := by
+  simp only [dtStrD, (dialectOf_uk_iff dia).mpr hdia, Option.bind_some]
+  exact uk_str_any_seps y m d v hy ws1 ws2 a z1 b z2 yy tm hms us ha hb hyy hy4 va vb vy h1 h2 ht w1 w2
+
+/-- US, the dialect in any letter case (`'US'` is the library's own spelling) -/
+theorem us_str_any_dialect_case (dia : String) (hdia : dia ∈ ["us", "US", "Us", "uS"])
+    (y m d : Nat) (v : Valid y m d) (ws1 ws2 a z1 b z2 yy tm : List Char) (hms us : Int)
+    (ha : IsNumeral 2 a) (hb : IsNumeral 2 b) (hyy : IsNumeral 4 yy) (hy4 : yy.length = 4)
+    (va : digitsVal a = m) (vb : digitsVal b = d) (vy : digitsVal yy = y)
+    (h1 : IsSepZone z1) (h2 : IsSepZone z2) (ht : TimeText tm hms us) (w1 : AllWs ws1) (w2 : AllWs ws2) :
+    dtStrD dia (String.ofList (ws1 ++ (a ++ (z1 ++ (b ++ (z2 ++ (yy ++ tm))))) ++ ws2)) = some (checkRange (mkDate y m d + hms + us)) := by
+  simp only [dtStrD, (dialectOf_us_iff dia).mpr hdia, Option.bind_some]
+  exact us_str_any_seps y m d v ws1 ws2 a z1 b z2 yy tm hms us ha hb hyy hy4 va vb vy h1 h2 ht w1 w2
+
+/-- the other dialect's day > 12 text is rejected whatever the letter case of the dialect: `dt('01/13/2000', dialect = 'UK')` and
+`dt('13/01/2000', dialect = 'US')` are ValueError, not the swapped date -/
+theorem str_rejects_any_dialect_case (y m d : Nat) (hm : 1 ≤ m ∧ m ≤ 12) (hd : 12 < d) (ws1 ws2 a z1 b z2 yy tm : List Char) (hms us : Int)
+    (ha : IsNumeral 2 a) (hb : IsNumeral 2 b) (hyy : IsNumeral 4 yy) (hy4 : yy.length = 4) (vy : digitsVal yy = y)
+    (h1 : IsSepZone z1) (h2 : IsSepZone z2) (ht : TimeText tm hms us) (w1 : AllWs ws1) (w2 : AllWs ws2) :
+    (∀ dia ∈ ["uk", "UK", "Uk", "uK"], digitsVal a = m → digitsVal b = d →
+      dtStrD dia (String.ofList (ws1 ++ (a ++ (z1 ++ (b ++ (z2 ++ (yy ++ tm))))) ++ ws2)) = some (.error .value))
+    ∧ (∀ dia ∈ ["us", "US", "Us", "uS"], digitsVal a = d → digitsVal b = m →
+      dtStrD dia (String.ofList (ws1 ++ (a ++ (z1 ++ (b ++ (z2 ++ (yy ++ tm))))) ++ ws2)) = some (.error .value)) := by
+  have h := str_rejects_any_seps y m d hm hd ws1 ws2 a z1 b z2 yy tm hms us ha hb hyy hy4 vy h1 h2 ht w1 w2
+  constructor
+  · intro dia hdia va vb
+    simp only [dtStrD, (dialectOf_uk_iff dia).mpr hdia, Option.bind_some]
+    exact h.1 va vb
+  · intro dia hdia va vb
+    simp only [dtStrD, (dialectOf_us_iff dia).mpr hdia, Option.bind_some]
+    exact h.2 va vb
+
+-- the instances the pinned code got wrong (review4 v3 §C04.2-1)
+example : dtStrD "UK" "02/01/2000" = some (.ok (mkDate 2000 1 2)) ∧ dtStrD "Uk" "13/01/2000" = some (.ok (mkDate 2000 1 13))
+    ∧ dtStrD "US" "02/01/2000" = some (.ok (mkDate 2000 2 1)) :=
+  ⟨eq_of_okView (by decide +kernel), eq_of_okView (by decide +kernel), eq_of_okView (by decide +kernel)⟩
+example : dtStrD "UK" "01/13/2000" = some (.error .value) ∧ dtStrD "US" "13/01/2000" = some (.error .value) :=
+  ⟨eq_of_isValueError (by decide +kernel), eq_of_isValueError (by decide +kernel)⟩
+example : dialectOf "british" = none ∧ dialectOf "uk " = none ∧ dialectOf "" = none := by decide
 
 /-- `slashes` against the regex SEMANTICS, both directions: a text is rewritten (to `a/b/` + the year and what follows it) exactly
 when it matches `^d{1,2}\s*SEP\s*d{1,2}\s*SEP\s*d{2,4}` (`MatchesPadded`, a decomposition of the text), and is left alone otherwise -/
